@@ -27,5 +27,17 @@ for name, m in sorted(p.modules.items()):
                 for t in a.targets:
                     if isinstance(t, ast.Name):
                         consts.append('%s:%s' % (name, t.id))
-json.dump({'functions': funcs, 'constants': sorted(set(consts))}, open(REF_TABLE, 'w'), indent=0)
+# fingerprints of the canonical bodies (to recognise a renamed function)
+from sa.normalize import function_fingerprint, _signature, normalise_trees
+pn = Project(sys.argv[1] if len(sys.argv) > 1 else '/repo', canonical=False, normalise=False)
+normalise_trees({n: m.tree for n, m in pn.modules.items()}, reference={'constants': sorted(set(consts)), 'functions': funcs}, inline=False)
+fps = {}
+for name, m in sorted(pn.modules.items()):
+    scopes = [(None, m.tree.body)] + [(s.name, s.body) for s in m.tree.body if isinstance(s, ast.ClassDef)]
+    for cls, body in scopes:
+        for b in body:
+            if isinstance(b, (ast.FunctionDef, ast.AsyncFunctionDef)):
+                key = '%s:%s%s' % (name, (cls + '.') if cls else '', b.name)
+                fps[key] = {'fp': function_fingerprint(b), 'fpa': function_fingerprint(b, True), 'sig': list(_signature(b))}
+json.dump({'functions': funcs, 'constants': sorted(set(consts)), 'fingerprints': fps}, open(REF_TABLE, 'w'), indent=0)
 print(len(funcs), 'functions', len(set(consts)), 'constants')
